@@ -44,12 +44,18 @@ type c13Case struct {
 	PreCmds []string `json:"pre_cmds,omitempty"`
 	PreOuts []string `json:"pre_outs,omitempty"`
 	PreStop bool     `json:"pre_stop,omitempty"`
+	// Mix: where options of OTHER kinds (channel-level timeout, network-level privilege level)
+	// stand in the option list relative to the two generic ones: 0 after, 1 in front, 2 between, 3 around
+	Mix int `json:"mix,omitempty"`
 }
 
 func genC13(r *sim.Rng) *c13Case {
 	c := &c13Case{}
 	c.Variant = r.Pick([]string{"commands", "commands", "each", "fromfile", "netconfigs", "netconfig", "netcommands", "netcommandsfile", "netconfigsfile"})
 	c.Stop = r.Bool()
+	if r.Chance(1, 2) {
+		c.Mix = 1 + r.Intn(3)
+	}
 	nd := r.Intn(4)
 	for i := 0; i < nd; i++ {
 		c.DrvF = append(c.DrvF, r.Pick(c13FailPool))
@@ -192,11 +198,27 @@ func runC13Case(id string, c *c13Case) {
 		defer d.Close()
 	}
 	var opts []util.Option
-	if c.Stop {
+	other := func() util.Option { return opoptions.WithTimeoutOps(5 * time.Second) }
+	if c.Mix == 1 || c.Mix == 3 {
+		opts = append(opts, other())
+		if nd != nil {
+			opts = append(opts, opoptions.WithPrivilegeLevel("privilege-exec"))
+		}
+	}
+	if c.Stop && c.Mix != 3 {
 		opts = append(opts, opoptions.WithStopOnFailed())
+	}
+	if c.Mix == 2 {
+		opts = append(opts, other())
 	}
 	if len(c.OpF) > 0 {
 		opts = append(opts, opoptions.WithFailedWhenContains(c.OpF))
+	}
+	if c.Mix == 3 {
+		opts = append(opts, other())
+		if c.Stop {
+			opts = append(opts, opoptions.WithStopOnFailed())
+		}
 	}
 	preSent := 0
 	if len(c.PreCmds) > 0 {
